@@ -95,15 +95,37 @@ def rename_labels(items, mp):
     return items
 
 
+ITYPE_LIT = {'addi', 'andi', 'ori', 'xori', 'slti', 'sltiu', 'lw', 'lh', 'lb', 'lhu', 'lbu', 'sw', 'sh', 'sb'}
+
+
+def literal_twin(items, pick):
+    """Deep copy of IR items in which the literal 12-bit immediates of plain I/S-type instructions are replaced by pick(old value)
+    (every value of -2048..2047 is legal there, so the copy is as valid as the original)."""
+    items = copy.deepcopy(items)
+    for it in items:
+        if it.kind == 'insn' and it.mn in ITYPE_LIT and type(it.ops.get('imm')) is ir.Lit and -2048 <= it.ops['imm'].value <= 2047:
+            it.ops['imm'] = ir.Lit(pick(it.ops['imm'].value))
+    return items
+
+
 @st.composite
 def pool(draw):
     n = draw(st.integers(3, 6))
     progs = []
     prev = None
+    pending = None
     for i in range(n):
         p = draw(S.programs(PROFILE))
         labs = [it.name for it in (prev.items if prev is not None else []) if it.kind == 'label']
-        if prev is not None and len(labs) >= 2 and draw(st.integers(0, 2)) == 0:
+        if pending is not None:
+            p, pending = pending, None
+        elif i + 1 < n and draw(st.integers(0, 4)) == 0:
+            # NEAR TWINS (round 9): this program with the literal immediates of its I/S-type instructions at edge values, and as the
+            # next program the same text with each of them one lower - two programs that differ in nothing but neighbouring
+            # numbers (state keyed by anything coarser than the operand values would confuse them)
+            p = S.Program(literal_twin(p.items, lambda v: draw(st.sampled_from([-1, -1, -1, 0, 1, -2, 2047, 16, v]))), p.tags, p.expected_ok)
+            pending = S.Program(literal_twin(p.items, lambda v: v - 1 if v > -2048 else v + 1), p.tags, p.expected_ok)
+        elif prev is not None and len(labs) >= 2 and draw(st.integers(0, 2)) == 0:
             # a SIBLING of the previous program: the same items with the label names permuted - the same names then sit at other
             # addresses, in another order (a dictionary filled by one of the two has the "wrong" insertion order for the other)
             perm = draw(st.permutations(labs))
@@ -596,6 +618,23 @@ def sibling_job(seed, n):
                          {'kind': 'sibling', 'A': A, 'B': B, 'compress': comp})
             else:
                 res.nt(env.chash((A, B, comp)))
+            # ... near twins (round 9): A with the literal immediates of its I/S-type instructions at edge values, then the same text with
+            # each of them one lower, in ONE module; the second must come out as in a module that never saw the first
+            t1 = literal_twin(p.items, lambda v: [-1, 0, 1, -1, 2047, 16, -2][(k + v) % 7])
+            T1 = ir.render(t1)[0]
+            T2 = ir.render(literal_twin(t1, lambda v: v - 1 if v > -2048 else v + 1))[0]
+            if T1 != T2:
+                res.evaluations += 1
+                m = fresh_module()
+                ref3 = progcheck.assemble(fresh_module(), T2, comp, labels={}, constants={})
+                progcheck.assemble(m, T1, comp, labels={}, constants={})
+                got3 = progcheck.assemble(m, T2, comp, labels={}, constants={})
+                if got3[0] != ref3[0] or (ref3[0] == 'ok' and got3[1] != ref3[1]):
+                    res.fail('history:near_twin', 'a program assembled after its near twin (same text, literal immediates one higher) gives %s, on its own %s (compress=%s)\n--- first\n%s--- then\n%s' % (
+                        got3[1].hex()[:80] if got3[0] == 'ok' else got3, ref3[1].hex()[:80] if ref3[0] == 'ok' else ref3, comp, T1[:500], T2[:500]),
+                        {'kind': 'sibling', 'A': T1, 'B': T2, 'compress': comp, 'twin': True})
+                else:
+                    res.count('near_twins')
             # ... and a small unrelated program that uses one of A's label names as a CONSTANT (a constant shadows a left-over
             # label of the same name): with A's labels dictionary it must assemble to what it gives with an empty one
             name = labs[k % len(labs)]
@@ -638,6 +677,16 @@ def replay(path):
         body = json.load(f)
     c = body['case']
     _stats = env.Result()
+    if c['kind'] == 'sibling' and c.get('twin'):
+        m = fresh_module()
+        ref = progcheck.assemble(fresh_module(), c['B'], c['compress'], labels={}, constants={})
+        progcheck.assemble(m, c['A'], c['compress'], labels={}, constants={})
+        got = progcheck.assemble(m, c['B'], c['compress'], labels={}, constants={})
+        if got[0] != ref[0] or (ref[0] == 'ok' and got[1] != ref[1]):
+            print('VIOLATION property=%s replay=%s' % (PROP, path))
+            return env.EXIT_VIOLATION
+        print('replay holds: %s' % path)
+        return env.EXIT_OK
     if c['kind'] == 'sibling':
         a = fresh_module()
         ref_l, la = {}, {}
